@@ -5,10 +5,13 @@
     sample_single            cfg low high <bytes>   `UniformInt::sample_single(low, high, rng)`
                                                     (= `rng.gen_range(low..high)`)
     sample_single_inclusive  cfg low high <bytes>   (= `rng.gen_range(low..=high)`)
+    gen_range                cfg low high <bytes>   `rng.gen_range(low..high)` (rand's forwarder)
+    gen_range_inclusive      cfg low high <bytes>   `rng.gen_range(low..=high)`
     uniform_new              cfg low high <bytes>   `Uniform::new(low, high).sample(rng)`
     uniform_new_inclusive    cfg low high <bytes>   `Uniform::new_inclusive(low, high).sample(rng)`
     standard                 cfg <bytes>            `rng.gen::<T>()`
     fill                     cfg k <bytes>          `try_fill_slice(&mut [T; k], rng)` (k decimal)
+    fill_each                cfg k <bytes>          k successive `rng.gen::<T>()` (same answer as `fill`)
     check_in_range           cfg low high x incl    incl = `1`: low ≤ x ≤ high, `0`: low ≤ x < high
   Answers: `S(x)@c` (value pattern `x`, `c` = bytes consumed, decimal); `[a,b,…]@c` for `fill`;
   `P` = panic (empty range); `exhausted` = the stream ran out; `true`/`false` for check_in_range.
@@ -55,6 +58,14 @@ def handle : Handler := fun c op args =>
     let lo ← parseVal c lo; let hi ← parseVal c hi; let s ← parseBytes bs
     some (showDrawM s.length (Rand.sampleSingleInclusive sg true w n (U w lo) (U w hi) s),
           showDrawS c (specSample (Spec.Random.zoneSingle bits m) (valOf c lo) (valOf c hi) true s))
+  | "gen_range", [lo, hi, bs] => do
+    let lo ← parseVal c lo; let hi ← parseVal c hi; let s ← parseBytes bs
+    some (showDrawM s.length (Rand.genRange sg true w n (U w lo) (U w hi) s),
+          showDrawS c (specSample (Spec.Random.zoneSingle bits m) (valOf c lo) (valOf c hi) false s))
+  | "gen_range_inclusive", [lo, hi, bs] => do
+    let lo ← parseVal c lo; let hi ← parseVal c hi; let s ← parseBytes bs
+    some (showDrawM s.length (Rand.genRangeInclusive sg true w n (U w lo) (U w hi) s),
+          showDrawS c (specSample (Spec.Random.zoneSingle bits m) (valOf c lo) (valOf c hi) true s))
   | "uniform_new", [lo, hi, bs] => do
     let lo ← parseVal c lo; let hi ← parseVal c hi; let s ← parseBytes bs
     some (showDrawM s.length (Rand.uniformNewSample sg true w n (U w lo) (U w hi) s),
@@ -75,6 +86,15 @@ def handle : Handler := fun c op args =>
   | "fill", [k, bs] => do
     let k ← k.toNat?; let s ← parseBytes bs
     let mo := match Rand.fillSlice w n k s with
+      | none => "exhausted"
+      | some (xs, rest) => showList (xs.map (showVal c)) ++ "@" ++ toString (s.length - rest.length)
+    let sp := match Spec.Random.fill bytes k s with
+      | none => "exhausted"
+      | some (vs, cnt) => showList (vs.map toHex) ++ "@" ++ toString cnt
+    some (mo, sp)
+  | "fill_each", [k, bs] => do
+    let k ← k.toNat?; let s ← parseBytes bs
+    let mo := match Rand.genMany w n k s with
       | none => "exhausted"
       | some (xs, rest) => showList (xs.map (showVal c)) ++ "@" ++ toString (s.length - rest.length)
     let sp := match Spec.Random.fill bytes k s with
